@@ -62,42 +62,41 @@ def eval_scenario(scn: dict) -> dict:
     sexp, m, par = scn["sexp"], scn["m"], scn["par"]
     combos = scn.get("_combos") or [(d, x) for d in DTYPES for x in scn["exps"]]
     for dtype, e in combos:
-        if True:
-            J = rr.build(scn["ja"], scn["jb"], sexp, e, dtype)
-            where = f"{dtype}, J = 2^{e} * {_show(scn)}, corrupted rows {scn['corrupt']}"
-            if scn["kind"] == "tm":
-                exc, out = rr.tm_observe(par, J)
+        J = rr.build(scn["ja"], scn["jb"], sexp, e, dtype)
+        where = f"{dtype}, J = 2^{e} * {_show(scn)}, corrupted rows {scn['corrupt']}"
+        if scn["kind"] == "tm":
+            exc, out = rr.tm_observe(par, J)
+            evals += 1
+            if scn["status"] == "reject":
+                if exc == "none":
+                    finds.append(("too_few_rows_not_rejected", None, dtype, e,
+                                  f"TrimmedMean({par}) accepted a matrix with {m} rows ({where})"))
+                continue
+            if exc != "none":
+                finds.append(("raised_although_enough_rows", None, dtype, e,
+                              f"TrimmedMean({par}) raised {exc} on a matrix with {m} >= {2 * par + 1} rows ({where})"))
+                continue
+            expected = [rr.exact_value(c, sexp, e) for c in scn["tm"]]
+            lo = [Fraction(v) * Fraction(2) ** e for v in scn["hmin"]]
+            hi = [Fraction(v) * Fraction(2) ** e for v in scn["hmax"]]
+            cl, det = rr.tm_compare(out, expected, lo, hi, dtype)
+            if cl != "none":
+                finds.append((cl, None, dtype, e, f"TrimmedMean({par}) returned {out.tolist()}: {det} ({where})"))
+        else:
+            for case in scn["krum"]:
+                k = case["k"]
+                obs = rr.krum_observe(par, k, J)
                 evals += 1
-                if scn["status"] == "reject":
-                    if exc == "none":
-                        finds.append(("too_few_rows_not_rejected", None, dtype, e,
-                                      f"TrimmedMean({par}) accepted a matrix with {m} rows ({where})"))
+                if case["status"] == "reject":
+                    if obs["exc"] == "none":
+                        finds.append(("too_few_rows_not_rejected", k, dtype, e,
+                                      f"Krum({par}, {k}) accepted a matrix with {m} rows ({where})"))
                     continue
-                if exc != "none":
-                    finds.append(("raised_although_enough_rows", None, dtype, e,
-                                  f"TrimmedMean({par}) raised {exc} on a matrix with {m} >= {2 * par + 1} rows ({where})"))
-                    continue
-                expected = [rr.exact_value(c, sexp, e) for c in scn["tm"]]
-                lo = [Fraction(v) * Fraction(2) ** e for v in scn["hmin"]]
-                hi = [Fraction(v) * Fraction(2) ** e for v in scn["hmax"]]
-                cl, det = rr.tm_compare(out, expected, lo, hi, dtype)
+                cl = rr.krum_clause(obs, k, case["allowed"])
                 if cl != "none":
-                    finds.append((cl, None, dtype, e, f"TrimmedMean({par}) returned {out.tolist()}: {det} ({where})"))
-            else:
-                for case in scn["krum"]:
-                    k = case["k"]
-                    obs = rr.krum_observe(par, k, J)
-                    evals += 1
-                    if case["status"] == "reject":
-                        if obs["exc"] == "none":
-                            finds.append(("too_few_rows_not_rejected", k, dtype, e,
-                                          f"Krum({par}, {k}) accepted a matrix with {m} rows ({where})"))
-                        continue
-                    cl = rr.krum_clause(obs, k, case["allowed"])
-                    if cl != "none":
-                        finds.append((cl, k, dtype, e,
-                                      f"Krum(n_byzantine={par}, n_selected={k}) selected rows {obs['sel']} "
-                                      f"(exception {obs['exc']}; allowed selections {case['allowed']}) {obs['detail']} ({where})"))
+                    finds.append((cl, k, dtype, e,
+                                  f"Krum(n_byzantine={par}, n_selected={k}) selected rows {obs['sel']} "
+                                  f"(exception {obs['exc']}; allowed selections {case['allowed']}) {obs['detail']} ({where})"))
     if scn["kind"] == "tm" and scn["status"] == "ok" and scn["corrupt"]:
         nontrivial.append((_sid(scn), 0))
     if scn["kind"] == "krum":
